@@ -1,9 +1,179 @@
-(* C09 -- placeholder while proofs are being developed *)
+(* C09 -- VCF records and headers round-trip through text; lazy and eager views agree.
+   (partial by design: the theorems cover INFO fields, sample columns, genotypes and the
+   span-relevant fields of a record on the Gallina models NV.Vcf.{Values,Span,Record}; the fixed
+   columns, whole-record assembly and headers are covered by the implementation-side oracle only.)
+   Floats: Rust's f32 Display / str::parse::<f32> are the oracle pair (fmt_float, prs_float),
+   universally quantified, with the premises listed in each theorem (FOK selects the bit patterns
+   the pair round-trips: every non-NaN value and the canonical NaN). *)
 From Coq Require Import List NArith ZArith Bool.
-From NV Require Import Base.Percent Base.PercentProofs Text.TextBase Vcf.Values Vcf.Span Vcf.Record.
+From NV Require Import Base.Percent Base.PercentProofs Text.TextBase Vcf.Values Vcf.ValuesProofs
+  Vcf.GenotypeProofs Vcf.SampleProofs Vcf.Span Vcf.Record Vcf.SpanProofs.
 Import ListNotations.
 Open Scope N_scope.
 
-Theorem c09_pct_roundtrip_tmp : forall c s, bytes_ok s -> pct_dec (pct_enc (str_set c) s) = s.
-Proof. intros c s H. apply pct_dec_enc; [destruct c; reflexivity|exact H]. Qed.
-Print Assumptions c09_pct_roundtrip_tmp.
+(* the writers' escape sets are what the specification lists (all 256 bytes) *)
+Theorem c09_encode_sets : forall b, b < 256 ->
+  (str_set CInfo b = true <-> (b < 32 \/ b = 127 \/ 128 <= b \/ b = 37 \/ b = 44 \/ b = 59 \/ b = 61)) /\
+  (str_set CFormat b = true <-> (b < 32 \/ b = 127 \/ 128 <= b \/ b = 37 \/ b = 44 \/ b = 58)).
+Proof. exact encode_sets_spec. Qed.
+Print Assumptions c09_encode_sets.
+
+(* Strings: any byte string (also the lone "."), INFO or FORMAT, either reader; the text never
+   is "." and contains none of ',' TAB LF (nor ';' '=' in INFO, ':' in FORMAT) *)
+Theorem vcf_string_roundtrip : forall prs c lazy s, bytes_ok s ->
+  parse_value prs lazy (NCount 1) TString (write_string c s) = Some (VString s) /\
+  write_string c s <> dot /\
+  ~ In 44 (write_string c s) /\ ~ In 9 (write_string c s) /\ ~ In 10 (write_string c s) /\
+  match c with
+  | CInfo => ~ In 59 (write_string c s) /\ ~ In 61 (write_string c s)
+  | CFormat => ~ In 58 (write_string c s)
+  end.
+Proof. exact string_roundtrip. Qed.
+Print Assumptions vcf_string_roundtrip.
+
+(* INFO field key=value / key / key=. for every (Number, Type), arrays with missing entries,
+   either reader.  val_ok excludes, for the eager reader only, Characters of the writer's escape
+   set (known finding, refuted below). *)
+Theorem vcf_info_value_roundtrip :
+  forall fmt_float prs_float (FOK : N -> Prop),
+  (forall b, FOK b -> prs_float (fmt_float b) = Some b) ->
+  (forall b x, FOK b -> In x (fmt_float b) -> x <> 44 /\ x <> 9 /\ x <> 10 /\ x <> 59 /\ x <> 58) ->
+  (forall b, FOK b -> fmt_float b <> dot) ->
+  (forall b, FOK b -> fmt_float b <> []) ->
+  forall lazy num ty key ov t,
+  ~ In 61 key ->
+  match ov with Some v => val_ok FOK CInfo lazy v /\ typed num ty v | None => True end ->
+  write_info_field fmt_float key ov = Some t ->
+  parse_info_field prs_float lazy num ty t = Some ov.
+Proof. exact info_field_roundtrip. Qed.
+Print Assumptions vcf_info_value_roundtrip.
+
+Theorem vcf_sample_value_roundtrip :
+  forall fmt_float prs_float (FOK : N -> Prop),
+  (forall b, FOK b -> prs_float (fmt_float b) = Some b) ->
+  (forall b x, FOK b -> In x (fmt_float b) -> x <> 44 /\ x <> 9 /\ x <> 10 /\ x <> 59 /\ x <> 58) ->
+  (forall b, FOK b -> fmt_float b <> dot) ->
+  (forall b, FOK b -> fmt_float b <> []) ->
+  forall lazy v44 d o t,
+  match o with Some v => sval_ok FOK lazy v44 d v | None => True end ->
+  one_text fmt_float v44 o = Some t ->
+  parse_sample_value prs_float lazy d t = Some (option_map (norm_value v44) o).
+Proof. exact sample_value_roundtrip. Qed.
+Print Assumptions vcf_sample_value_roundtrip.
+
+(* Genotypes of any ploidy >= 1, any mix of phasing, missing alleles: from VCF 4.4 exactly; before
+   4.4 the first allele's phasing is not written and comes back as the readers derive it *)
+Theorem vcf_genotype_roundtrip : forall g, gt_ok g ->
+  parse_genotype (write_genotype true g) = Some g /\
+  parse_genotype_lazy (write_genotype true g) = Some g /\
+  parse_genotype (write_genotype false g) = Some (normalize_first g) /\
+  parse_genotype_lazy (write_genotype false g) = Some (normalize_first g).
+Proof.
+  intros g H. repeat split;
+    [apply genotype_roundtrip_v44|apply genotype_lazy_roundtrip_v44
+    |apply genotype_roundtrip_pre44|apply genotype_lazy_roundtrip_pre44]; exact H.
+Qed.
+Print Assumptions vcf_genotype_roundtrip.
+
+(* Record level, partial: a whole sample column (values fitting a prefix of the FORMAT keys,
+   trailing values dropped) read by either reader.  Together with vcf_info_value_roundtrip this
+   covers the typed columns of a record; the fixed columns and the TAB assembly are not proved. *)
+Theorem c09_record_roundtrip_partial :
+  forall fmt_float prs_float (FOK : N -> Prop),
+  (forall b, FOK b -> prs_float (fmt_float b) = Some b) ->
+  (forall b x, FOK b -> In x (fmt_float b) -> x <> 44 /\ x <> 9 /\ x <> 10 /\ x <> 59 /\ x <> 58) ->
+  (forall b, FOK b -> fmt_float b <> dot) ->
+  (forall b, FOK b -> fmt_float b <> []) ->
+  forall lazy v44 ds vs s,
+  fits FOK lazy v44 ds vs -> vs <> [] ->
+  write_sample fmt_float v44 vs = Some s -> s <> [] -> s <> dot ->
+  (if lazy then parse_sample_lazy prs_float ds s else parse_sample_eager prs_float ds s)
+  = Some (map (option_map (norm_value v44)) vs).
+Proof. exact sample_column_roundtrip. Qed.
+Print Assumptions c09_record_roundtrip_partial.
+
+(* the full statement, over a whole-record writer and the two readers (not proved: no Gallina
+   model of the fixed columns and of the header-directed assembly in this revision) *)
+Definition c09_record_roundtrip_full_statement
+  (header record text : Type) (consistent : header -> record -> Prop)
+  (write_record : header -> record -> option text)
+  (read_eager read_lazy : header -> text -> option record)
+  (span : header -> record -> res N) : Prop :=
+  forall h r t, consistent h r -> write_record h r = Some t ->
+    read_eager h t = Some r /\ read_lazy h t = Some r /\
+    (forall r', read_lazy h t = Some r' -> span h r' = span h r).
+
+Definition c09_header_roundtrip_full_statement
+  (header text : Type) (write_header : header -> text) (parse_header : text -> option header) : Prop :=
+  forall h, parse_header (write_header h) = Some h.
+
+(* Lazy = eager: the span-relevant fields (INFO END, INFO SVLEN, FORMAT LEN) written and read back
+   by the lazy and by the eager reader give the same variant_end and variant_span, equal to those
+   of the written record, under every file format (v45 = VCF >= 4.5) *)
+Theorem c09_lazy_eq_eager : forall fmt_float prs_float v45 r, span_ok r ->
+  match reread fmt_float prs_float true r, reread fmt_float prs_float false r with
+  | VOk rl, VOk re =>
+      variant_end v45 rl = variant_end v45 re /\ variant_span v45 rl = variant_span v45 re /\
+      variant_end v45 re = variant_end v45 r /\ variant_span v45 re = variant_span v45 r
+  | _, _ => False
+  end.
+Proof. exact span_lazy_eq_eager. Qed.
+Print Assumptions c09_lazy_eq_eager.
+
+(* ... and on values: whatever the writer emits for a value of the eager fragment is read
+   identically by both readers *)
+Theorem c09_lazy_eq_eager_values :
+  forall fmt_float prs_float (FOK : N -> Prop),
+  (forall b, FOK b -> prs_float (fmt_float b) = Some b) ->
+  (forall b x, FOK b -> In x (fmt_float b) -> x <> 44 /\ x <> 9 /\ x <> 10 /\ x <> 59 /\ x <> 58) ->
+  (forall b, FOK b -> fmt_float b <> dot) ->
+  (forall b, FOK b -> fmt_float b <> []) ->
+  forall c v44 num ty v t,
+  val_ok FOK c false v -> typed num ty v -> v <> VFlag ->
+  write_value fmt_float c v44 v = Some t ->
+  parse_value prs_float true num ty t = parse_value prs_float false num ty t.
+Proof. exact value_lazy_eq_eager. Qed.
+Print Assumptions c09_lazy_eq_eager_values.
+
+(* Known findings, on the faithful model: a Character of the escape set does not come back through
+   the eager reader (it does through the lazy one); a sample without values is written as an empty
+   column which the eager reader rejects *)
+Theorem c09_char_reserved_eager_refuted : exists prs c ch,
+  ch < 128 /\
+  parse_value prs false (NCount 1) TCharacter (write_char c ch) = None /\
+  parse_value prs true (NCount 1) TCharacter (write_char c ch) = Some (VCharacter ch).
+Proof. exact char_reserved_refuted. Qed.
+Print Assumptions c09_char_reserved_eager_refuted.
+
+Theorem c09_empty_sample_refuted : exists fmt prs ds,
+  write_sample fmt false [] = Some [] /\ parse_sample_eager prs ds [] = None.
+Proof. exact empty_sample_refuted. Qed.
+Print Assumptions c09_empty_sample_refuted.
+
+(* non-vacuity *)
+Example c09_example_string :
+  write_string CInfo [97; 59; 98; 61; 37] = [97; 37; 51; 66; 98; 37; 51; 68; 37; 50; 53] /\
+  write_string CFormat dot = [37; 50; 69] /\
+  pct_dec (write_string CInfo [97; 59; 98; 61; 37]) = [97; 59; 98; 61; 37].
+Proof. vm_compute. repeat split. Qed.
+
+Example c09_example_genotype :
+  gt_ok [(Some 0, false); (None, true); (Some 12, false)] /\
+  write_genotype false [(Some 0, false); (None, true); (Some 12, false)] = [48; 124; 46; 47; 49; 50] /\
+  write_genotype true [(Some 0, false); (None, true); (Some 12, false)] = [47; 48; 124; 46; 47; 49; 50].
+Proof. split; [split; [discriminate|repeat constructor; cbn; try exact I; vm_compute; discriminate]|vm_compute; split; reflexivity]. Qed.
+
+Example c09_example_span :
+  let r := {| si_pos := 100; si_reflen := 4; si_end := Some (Some (VInteger 250%Z));
+              si_svlen := Some (Some (VIntArr [Some 500%Z; None])); si_len := Some [Some (VInteger 30%Z); None] |} in
+  span_ok r /\ variant_end false r = Ok 250 /\ variant_span false r = Ok 151 /\
+  variant_end true r = Ok 599 /\ variant_span true r = Ok 500.
+Proof.
+  cbv zeta. split; [|vm_compute; repeat split].
+  repeat split.
+  - exists 250%Z. split; [reflexivity|unfold i32_ok; split; reflexivity || discriminate].
+  - exists [Some 500%Z; None]. split; [reflexivity|]. split; [split; discriminate|].
+    intros z [H|[H|[]]]; inversion H. unfold i32_ok. split; reflexivity || discriminate.
+  - cbn. constructor; [exists 30%Z; split; [reflexivity|unfold i32_ok; split; reflexivity || discriminate]|].
+    constructor; [exact I|constructor].
+Qed.
